@@ -1,6 +1,7 @@
 package main
 
 import (
+	"go/token"
 	"go/types"
 
 	"golang.org/x/tools/go/ssa"
@@ -129,4 +130,132 @@ func storesFieldOnSuccess(p *Program, fn *ssa.Function, recv ssa.Value, field in
 		return true
 	}
 	return pathsToSuccessHit(fn, first, pred)
+}
+
+// C01.n: MessageIterator.NextInto documents that a nil message makes it allocate one. Every implementation must therefore
+// not touch its message parameter (field access, method call with it as receiver, dereference, or handing it to a callee that
+// does) before a nil test has replaced it: a use of the raw parameter is allowed only where the non-nil side of a nil
+// test of it dominates.
+func checkNextIntoNil(p *Program, r *Result, rule string) {
+	n := 0
+	for _, fn := range p.repoFunctions(pkgMcap) {
+		if fn.Name() != "NextInto" || fn.Signature.Recv() == nil || fn.Blocks == nil || len(fn.Params) != 2 {
+			continue
+		}
+		prm := fn.Params[1]
+		if _, ok := prm.Type().Underlying().(*types.Pointer); !ok {
+			continue
+		}
+		n++
+		bad := nilUnsafeUse(p, fn, prm, 3)
+		construct := "a nil message is replaced before it is used"
+		if bad == "" {
+			r.held(rule, funcName(fn), construct, p.pos(fn.Pos()), "every use of the raw parameter is a nil test, a merge with a fresh message, or sits on the non-nil side of a test")
+		} else {
+			r.violated(rule, funcName(fn), construct, bad,
+				"the message parameter is used without a nil test having replaced it: NextInto(nil), which is documented to allocate, and Next(...) through it, dereference nil")
+		}
+	}
+	if n == 0 {
+		r.undecided(rule, "mcap.*.NextInto", "anchor", "", "no NextInto implementation found")
+	}
+}
+
+// nilUnsafeUse: position of a use of pointer parameter prm of fn that may dereference it while it is nil ("" if none).
+// Handing the raw parameter to a package function is judged by that function's own treatment of the parameter.
+func nilUnsafeUse(p *Program, fn *ssa.Function, prm *ssa.Parameter, depth int) string {
+	nonNilDom := func(at ssa.Instruction) bool {
+		for _, ref := range refsOf(prm) {
+			b, ok := ref.(*ssa.BinOp)
+			if !ok || !(isNilConst(b.X) || isNilConst(b.Y)) {
+				continue
+			}
+			for _, r2 := range refsOf(b) {
+				iff, ok := r2.(*ssa.If)
+				if !ok {
+					continue
+				}
+				succ := iff.Block().Succs[0] // msg != nil
+				if b.Op == token.EQL {
+					succ = iff.Block().Succs[1]
+				}
+				if len(succ.Preds) == 1 && succ.Dominates(at.Block()) {
+					return true
+				}
+			}
+		}
+		return false
+	}
+	bad := ""
+	for _, ref := range refsOf(prm) {
+		switch x := ref.(type) {
+		case *ssa.BinOp, *ssa.Return, *ssa.DebugRef:
+			continue
+		case *ssa.Phi:
+			// the raw parameter may only flow into the merge from the non-nil side of its test
+			for i, e := range x.Edges {
+				if e != ssa.Value(prm) {
+					continue
+				}
+				pred := x.Block().Preds[i]
+				ok := false
+				if len(pred.Instrs) > 0 {
+					if iff, isIf := pred.Instrs[len(pred.Instrs)-1].(*ssa.If); isIf {
+						if b, isCmp := iff.Cond.(*ssa.BinOp); isCmp && (b.X == ssa.Value(prm) || b.Y == ssa.Value(prm)) && (isNilConst(b.X) || isNilConst(b.Y)) {
+							nonNil := pred.Succs[0]
+							if b.Op == token.EQL {
+								nonNil = pred.Succs[1]
+							}
+							ok = nonNil == x.Block()
+						}
+					}
+				}
+				if !ok && len(pred.Instrs) > 0 && nonNilDom(pred.Instrs[len(pred.Instrs)-1]) {
+					ok = true
+				}
+				if !ok {
+					bad = p.pos(fn.Pos())
+				}
+			}
+		case *ssa.FieldAddr:
+			if !nonNilDom(x) {
+				bad = p.pos(x.Pos())
+			}
+		case *ssa.UnOp:
+			if !nonNilDom(x) {
+				bad = p.pos(x.Pos())
+			}
+		case *ssa.Store:
+			if x.Addr == ssa.Value(prm) && !nonNilDom(x) {
+				bad = p.pos(x.Pos())
+			}
+		case ssa.CallInstruction:
+			if nonNilDom(x) {
+				continue
+			}
+			callee := x.Common().StaticCallee()
+			if callee == nil {
+				if x.Common().IsInvoke() {
+					continue // handed to an interface method as an argument: not a dereference here
+				}
+				bad = p.pos(x.Pos())
+				continue
+			}
+			if !p.isRepoFunc(callee) {
+				continue
+			}
+			if callee.Blocks == nil || depth <= 0 {
+				bad = p.pos(x.Pos())
+				continue
+			}
+			for j, a := range x.Common().Args {
+				if a == ssa.Value(prm) && j < len(callee.Params) {
+					if w := nilUnsafeUse(p, callee, callee.Params[j], depth-1); w != "" {
+						bad = w
+					}
+				}
+			}
+		}
+	}
+	return bad
 }
